@@ -63,7 +63,7 @@ class Nothing(object):
 
 class T2Tag(Nothing):
     """A plain Type 2 tag (UID not from NXP so that no vendor probing happens) that answers `budget`
-    commands after it was discovered and then leaves the field (budget None: stays)."""
+    commands; the next command gets no answer and the tag has left the field from then on (budget None: stays)."""
     name = "tag"
     UID = bytes.fromhex("08112233445566")
 
@@ -74,10 +74,11 @@ class T2Tag(Nothing):
         self.mem[12:16] = bytes.fromhex("E1100600")
         self.mem[16:20] = bytes.fromhex("0300FE00")
         self.selected = False
+        self.gone = False
 
     @property
     def present(self):
-        return self.budget is None or self.budget > 0
+        return not self.gone
 
     def sense(self, dev, kind, target):
         if kind != "tta" or not self.present:
@@ -93,6 +94,9 @@ class T2Tag(Nothing):
             raise dev.ns.TimeoutError("tag gone")
         if len(data) == 2 and data[0] == 0x30:
             if self.budget is not None:
+                if self.budget <= 0:
+                    self.gone = True
+                    raise dev.ns.TimeoutError("tag left")
                 self.budget -= 1
             p = (data[1] * 4) % len(self.mem)
             return bytearray((self.mem + self.mem)[p:p + 16])
@@ -186,6 +190,7 @@ class Peer(Nothing):
         if self.role != "initiator" or self.gone:
             raise dev.ns.TimeoutError("peer gone")
         if data is None:
+            self.gone = True                      # we stopped answering: the initiator gives up
             raise dev.ns.TimeoutError("nothing more from the initiator")
         body = bytes(data)[1:]
         if body[:2] == b"\xD5\x07" and body[2] & 0xE0 == 0x00:
